@@ -315,7 +315,13 @@ func (r *Run) classifyMapLoop(l *mapLoop) (class, arg string) {
 			if isAcc {
 				continue
 			}
-			// does the phi carry a value around the loop?
+			// does the phi carry a value around the loop? Only a phi at the head of a loop
+			// (this one or a nested one) does; a phi elsewhere joins the branches of one
+			// iteration (`if a { x, err = f() } else { x, err = g() }`) — what it joins is
+			// looked at where it comes from (a header phi it merges is examined itself)
+			if len(naturalLoop(p.Block())) == 0 {
+				continue
+			}
 			carried := false
 			for i, e := range p.Edges {
 				if l.blocks[p.Block().Preds[i]] && e != ssa.Value(p) {
